@@ -61,69 +61,41 @@ theorem memInfo_gp32_gp32 : memInfo 5 5 = 0x8F#32 := by decide
 def rmInfoIdx (a32 : Bool) : BitVec 32 := if a32 then 0x8F#32 else 0x0F#32
 
 /-- the prefix word `x` of `EmitVexEvexM` for a base + index operand -/
-def xMbx (opcode reg vvvvv rb rx : BitVec 32) : BitVec 32 :=
+def xMbx (opcode reg vvvvv rb rx aaa : BitVec 32) (z : Bool) : BitVec 32 :=
   (((reg + (vvvvv <<< 7)) <<< 4) &&& 0xF980#32) ||| ((rx <<< 3) &&& 0x40#32) ||| ((rx <<< 15) &&& 0x80000#32) ||| ((rb <<< 2) &&& 0x20#32) |||
-    extractLLMMMMM opcode 0#32
+    extractLLMMMMM opcode (zOpt z) ||| (aaa <<< 16)
 
 /-- the two extension bits packed as in the register form's `rm` argument: bit 3 = base[3], bit 4 = index[3] -/
 def xbOf (rb rx : BitVec 32) : BitVec 32 := rb ||| ((rx &&& 8#32) <<< 1)
 
-theorem xMbx_eq_xR (opcode reg vvvvv rb rx : BitVec 32) (hb : rb < 16#32) (hx : rx < 16#32) :
-    xMbx opcode reg vvvvv rb rx = xR opcode 0#32 reg vvvvv (xbOf rb rx) 0#32 := by
-  simp only [xMbx, xR, xbOf]; bv_decide
+theorem xMbx_eq_xR (opcode reg vvvvv rb rx aaa : BitVec 32) (z : Bool) (hb : rb < 16#32) (hx : rx < 16#32) :
+    xMbx opcode reg vvvvv rb rx aaa z = xR opcode 0#32 reg vvvvv (xbOf rb rx) aaa := by
+  cases z <;> simp only [xMbx, xR, xbOf, zOpt, oZMask, extractLLMMMMM, kLL_Mask, kMM_Mask, oEvex, Bool.false_eq_true, ↓reduceIte] <;> bv_decide
 
-theorem emitVexEvexM_index_eq (c : Model.X86.Ctx) (opcode reg vvvvv rb rx : BitVec 32) (size sh : Nat) (d imm : BitVec 64) (n : Nat) (seg : Nat) (a32 : Bool)
-    (hm : c.mode64 = true) (hpe : c.preferEvex = false) (hk : c.extraId = 0#32) (hvs : c.vsib = false) :
-    emitVexEvexM c opcode 0#32 (reg + (vvvvv <<< 7)) (memBaseIndex size rb rx sh d seg a32) imm n =
-      (match vexEvexMPrefix c (if c.vexFlag then xMbx opcode reg vvvvv rb rx else xMbx opcode reg vvvvv rb rx ||| 0x80000000#32) opcode 0#32
+theorem emitVexEvexM_index_eq (c : Model.X86.Ctx) (opcode reg vvvvv rb rx aaa : BitVec 32) (z : Bool) (size sh : Nat) (d imm : BitVec 64) (n : Nat) (seg : Nat) (a32 : Bool)
+    (hm : c.mode64 = true) (hpe : c.preferEvex = false) (hk : c.extraId = aaa) (hvs : c.vsib = false) :
+    emitVexEvexM c opcode (zOpt z) (reg + (vvvvv <<< 7)) (memBaseIndex size rb rx sh d seg a32) imm n =
+      (match vexEvexMPrefix c ((if c.vexFlag then xMbx opcode reg vvvvv rb rx aaa z else xMbx opcode reg vvvvv rb rx aaa z ||| 0x80000000#32) ||| zOpt z) opcode (zOpt z)
           (memBaseIndex size rb rx sh d seg a32) with
        | .error e => .error e
-       | .ok v => emitModSib c (segmentPrefix seg ++ aoBytes a32 ++ v.1) (segmentPrefix seg).length v.2 0#32 ((reg + (vvvvv <<< 7)) &&& 7#32) rb rx
+       | .ok v => emitModSib c (segmentPrefix seg ++ aoBytes a32 ++ v.1) (segmentPrefix seg).length v.2 (zOpt z) ((reg + (vvvvv <<< 7)) &&& 7#32) rb rx
                     (rmInfoIdx a32) (memBaseIndex size rb rx sh d seg a32) imm n false) := by
   unfold emitVexEvexM
-  cases a32
-  · simp only [memBaseIndex, xMbx, aoBytes, rmInfoIdx, Bool.false_eq_true, ↓reduceIte]
-    simp only [rtLabel, hk, hpe, hvs, memInfo_gp64_gp64, Model.X86.Ctx.aoMask, hm, oZMask, oER, oSAE, oVex, oVex3]
+  cases z <;> cases a32
+  all_goals
+    simp only [memBaseIndex, xMbx, aoBytes, rmInfoIdx, zOpt, Bool.false_eq_true, ↓reduceIte]
+    simp only [rtLabel, hk, hpe, hvs, memInfo_gp64_gp64, memInfo_gp32_gp32, Model.X86.Ctx.aoMask, hm, oZMask, oER, oSAE, oVex, oVex3]
     simp only [BitVec.ofNat_toNat, BitVec.setWidth_eq, BitVec.zero_and, BitVec.zero_or, BitVec.or_zero, bne_self_eq_false, Bool.false_eq_true, ↓reduceIte,
       Bool.false_and, gt_iff_lt, Nat.lt_irrefl, Nat.not_lt_zero, BitVec.zero_shiftLeft, BitVec.and_zero, bind, Except.bind, Bool.not_false,
-      show (1 < 6) = True from by decide, show (0x0F#32 &&& 0x80#32 != 0#32) = false from by decide, List.nil_append, List.length_nil, List.append_nil,
-      show ((0:Nat) != 0) = false from by decide]
-    generalize vexEvexMPrefix c _ opcode 0#32 _ = r
+      show (1 < 6) = True from by decide, show (1 < 5) = True from by decide, show (0x0F#32 &&& 0x80#32 != 0#32) = false from by decide,
+      show (0x8F#32 &&& 0x80#32 != 0#32) = true from by decide, List.nil_append, List.length_nil, List.append_nil,
+      show ((0:Nat) != 0) = false from by decide,
+      show (0x800000#32 &&& (0x800000#32 ||| 0x40000#32 ||| 0x80000#32) != 0#32) = true from by decide,
+      show (0x800000#32 &&& (0x40000#32 ||| 0x80000#32) != 0#32) = false from by decide,
+      show (0x800000#32 &&& 0x800000#32) = 0x800000#32 from by decide,
+      show (0x800000#32 &&& (0x800#32 ||| 0x400#32)) = 0#32 from by decide]
+    generalize vexEvexMPrefix c _ opcode _ _ = r
     cases r <;> rfl
-  · simp only [memBaseIndex, xMbx, aoBytes, rmInfoIdx, ↓reduceIte]
-    simp only [rtLabel, hk, hpe, hvs, memInfo_gp32_gp32, Model.X86.Ctx.aoMask, hm, oZMask, oER, oSAE, oVex, oVex3]
-    simp only [BitVec.ofNat_toNat, BitVec.setWidth_eq, BitVec.zero_and, BitVec.zero_or, BitVec.or_zero, bne_self_eq_false, Bool.false_eq_true, ↓reduceIte,
-      Bool.false_and, gt_iff_lt, Nat.lt_irrefl, Nat.not_lt_zero, BitVec.zero_shiftLeft, BitVec.and_zero, bind, Except.bind, Bool.not_false,
-      show (1 < 5) = True from by decide, show (0x8F#32 &&& 0x80#32 != 0#32) = true from by decide, List.nil_append, List.length_nil, List.append_nil,
-      show ((0:Nat) != 0) = false from by decide]
-    generalize vexEvexMPrefix c _ opcode 0#32 _ = r
-    cases r <;> rfl
-
-/-- the prefix part without broadcast and without a VSIB index ≥ 16: like `vexEvexMPrefix_nobcst`, the X bit (bit 6) may be set -/
-theorem vexEvexMPrefix_nobcstX (c : Model.X86.Ctx) (x opcode : BitVec 32) (m : Mem) (hx20 : x &&& 0x00180000#32 = 0#32) :
-    vexEvexMPrefix c x opcode 0#32 m =
-      .ok (if x &&& 0x80D78110#32 ≠ 0#32 then
-             (le32 (evexWord x opcode) ++ [opcode.truncate 8],
-              opcode + cdisp8Shl (((opcode >>> 13) &&& 0x18#32) + ((opcode >>> 25) &&& 0x04#32) + ((evexWord x opcode >>> 29) &&& 0x3#32)))
-           else if vexPrep x opcode 0#32 &&& 0x8000807E#32 ≠ 0#32 then
-             (le32 (vex3Word (vexPrep x opcode 0#32) (opcode &&& ~~~kCDSHL_Mask)), opcode &&& ~~~kCDSHL_Mask)
-           else ([0xC5#8, (vex2Byte (vexPrep x opcode 0#32)).truncate 8, opcode.truncate 8], opcode &&& ~~~kCDSHL_Mask)) := by
-  have hiff : (x &&& 0x80DF8110#32 = 0#32) ↔ (x &&& 0x80D78110#32 = 0#32) := by
-    constructor <;> intro h <;> bv_decide
-  have hb28 : ((evexWord x opcode &&& 0x10000000#32) != 0#32) = false := by
-    simp only [evexWord]; bv_decide
-  unfold vexEvexMPrefix
-  by_cases h : x &&& 0x80D78110#32 = 0#32
-  · have h' : x &&& 0x80DF8110#32 = 0#32 := hiff.mpr h
-    simp only [h', h, bne_self_eq_false, Bool.false_eq_true, ↓reduceIte, ne_eq, not_true_eq_false]
-    by_cases h3 : vexPrep x opcode 0#32 &&& 0x8000807E#32 = 0#32
-    · simp [h3]
-      simp only [kCDSHL_Mask]; bv_decide
-    · simp [h3]
-  · have h' : ¬ x &&& 0x80DF8110#32 = 0#32 := fun hh => h (hiff.mp hh)
-    simp [h', h, hb28]
-    obtain ⟨v, hv⟩ := cdisp8Shl_low ((opcode >>> 13 &&& 24#32) + (opcode >>> 25 &&& 4#32) + (evexWord x opcode >>> 29 &&& 3#32))
-    rw [hv]; bv_decide
 
 /-- all ModRM heads of the index path: mod = variant, rm = 100, reg field -/
 theorem idxMb_facts : ∀ o : Fin 8, ∀ v : Fin 3,
@@ -147,13 +119,6 @@ theorem idxSib_factsBV (sh : Nat) (x7 b7 : BitVec 32) (hsh : sh < 4) (hx : x7 < 
   have hx' : x7.toNat < 8 := by simpa [BitVec.lt_def] using hx
   have hb' : b7.toNat < 8 := by simpa [BitVec.lt_def] using hb
   simpa using idxSib_facts ⟨sh, hsh⟩ ⟨x7.toNat, hx'⟩ ⟨b7.toNat, hb'⟩
-
-theorem evexCdOpcode_eq32 (opcode reg vvvvv xb : BitVec 32) (hr : reg < 32#32) (hv : vvvvv < 32#32) (hb : xb < 32#32) (hxop : opcode &&& 0x800#32 = 0#32) :
-    evexCdOpcode opcode (evexWord (xR opcode 0#32 reg vvvvv xb 0#32) opcode) = evexCdOpcodeOf opcode := by
-  obtain ⟨-, -, -, -, -, -, -, -, -, -, -, -, e29, -, -, -⟩ :=
-    vex_evex_r_roundtrip opcode 0#32 reg vvvvv xb 0#32 hr hv hb (by decide) hxop (by decide)
-  have : (evexWord (xR opcode 0#32 reg vvvvv xb 0#32) opcode >>> 29) &&& 0x3#32 = (opcode >>> 29) &&& 0x3#32 := by bv_decide
-  simp only [evexCdOpcode, evexCdOpcodeOf, this]
 
 /-- the monitor's memory check on the index form's parts -/
 theorem idxParts_checkMem (ctx : Spec.X86.Ctx) (rule : Rule) (p : Parsed) (o7 rb rx s : BitVec 32) (size sh : Nat) (d : BitVec 64)
@@ -199,78 +164,52 @@ theorem idxParts_checkMem (ctx : Spec.X86.Ctx) (rule : Rule) (p : Parsed) (o7 rb
     rw [this]
     exact hmd
 
-/-- `EmitVexEvexM` on `[base64 + index64 * scale + disp]`: the complete output -/
-theorem emitVexEvexM_index_bytes (c : Model.X86.Ctx) (opcode reg vvvvv rb rx : BitVec 32) (size sh : Nat) (d imm : BitVec 64) (n : Nat) (seg : Nat) (a32 : Bool)
-    (hm : c.mode64 = true) (hpe : c.preferEvex = false) (hk : c.extraId = 0#32) (hvs : c.vsib = false)
-    (hr : reg < 32#32) (hv : vvvvv < 32#32) (hb : rb < 16#32) (hx : rx < 16#32) (hx4 : rx ≠ 4#32) (hxop : opcode &&& 0x800#32 = 0#32) :
-    emitVexEvexM c opcode 0#32 (reg + (vvvvv <<< 7)) (memBaseIndex size rb rx sh d seg a32) imm n =
-      .ok ((segmentPrefix seg ++ aoBytes a32) ++ ((if c.vexFlag = false ∨ xR opcode 0#32 reg vvvvv (xbOf rb rx) 0#32 &&& 0x00D78110#32 ≠ 0#32 then
-              le32 (evexWord (xR opcode 0#32 reg vvvvv (xbOf rb rx) 0#32) opcode) ++ [opcode.truncate 8] ++
+/-- `EmitVexEvexM` on `seg:[base + index * scale + disp]`: the complete output -/
+theorem emitVexEvexM_index_bytes (c : Model.X86.Ctx) (opcode reg vvvvv rb rx aaa : BitVec 32) (z : Bool) (size sh : Nat) (d imm : BitVec 64) (n : Nat) (seg : Nat) (a32 : Bool)
+    (hm : c.mode64 = true) (hpe : c.preferEvex = false) (hk : c.extraId = aaa) (hvs : c.vsib = false)
+    (hr : reg < 32#32) (hv : vvvvv < 32#32) (hb : rb < 16#32) (hx : rx < 16#32) (hx4 : rx ≠ 4#32) (ha : aaa < 8#32) (hxop : opcode &&& 0x800#32 = 0#32) :
+    emitVexEvexM c opcode (zOpt z) (reg + (vvvvv <<< 7)) (memBaseIndex size rb rx sh d seg a32) imm n =
+      .ok ((segmentPrefix seg ++ aoBytes a32) ++ ((if c.vexFlag = false ∨ (xR opcode 0#32 reg vvvvv (xbOf rb rx) aaa ||| zOpt z) &&& 0x00D78110#32 ≠ 0#32 then
+              le32 (evexWord (xR opcode 0#32 reg vvvvv (xbOf rb rx) aaa ||| zOpt z) opcode) ++ [opcode.truncate 8] ++
                 (idxMb ((reg + (vvvvv <<< 7)) &&& 7#32) (memVariant (rb &&& 7#32) (d.truncate 32) (cdShiftOf (evexCdOpcodeOf opcode))) ::
                   ((some (idxSib (BitVec.ofNat 32 sh) (rx &&& 7#32) (rb &&& 7#32))).toList ++
                    memDs rb (d.truncate 32) (cdShiftOf (evexCdOpcodeOf opcode))))
-            else if vexPrep (xR opcode 0#32 reg vvvvv (xbOf rb rx) 0#32) opcode 0#32 &&& 0x8000807E#32 ≠ 0#32 then
-              le32 (vex3Word (vexPrep (xR opcode 0#32 reg vvvvv (xbOf rb rx) 0#32) opcode 0#32) opcode) ++
+            else if vexPrep (xR opcode 0#32 reg vvvvv (xbOf rb rx) aaa ||| zOpt z) opcode 0#32 &&& 0x8000807E#32 ≠ 0#32 then
+              le32 (vex3Word (vexPrep (xR opcode 0#32 reg vvvvv (xbOf rb rx) aaa ||| zOpt z) opcode 0#32) opcode) ++
                 (idxMb ((reg + (vvvvv <<< 7)) &&& 7#32) (memVariant (rb &&& 7#32) (d.truncate 32) 0#32) ::
                   ((some (idxSib (BitVec.ofNat 32 sh) (rx &&& 7#32) (rb &&& 7#32))).toList ++ memDs rb (d.truncate 32) 0#32))
             else
-              [0xC5#8, (vex2Byte (vexPrep (xR opcode 0#32 reg vvvvv (xbOf rb rx) 0#32) opcode 0#32)).truncate 8, opcode.truncate 8] ++
+              [0xC5#8, (vex2Byte (vexPrep (xR opcode 0#32 reg vvvvv (xbOf rb rx) aaa ||| zOpt z) opcode 0#32)).truncate 8, opcode.truncate 8] ++
                 (idxMb ((reg + (vvvvv <<< 7)) &&& 7#32) (memVariant (rb &&& 7#32) (d.truncate 32) 0#32) ::
                   ((some (idxSib (BitVec.ofNat 32 sh) (rx &&& 7#32) (rb &&& 7#32))).toList ++ memDs rb (d.truncate 32) 0#32))) ++
            emitImmediate imm n)) := by
   have hoff : (memBaseIndex size rb rx sh d seg a32).offLo32 = d.truncate 32 := rfl
   have hshift : (memBaseIndex size rb rx sh d seg a32).shift = sh := rfl
   have hxb : xbOf rb rx < 32#32 := by simp only [xbOf]; bv_decide
-  have hcd := evexCdOpcode_eq32 opcode reg vvvvv (xbOf rb rx) hr hv hxb hxop
-  simp only [evexCdOpcode] at hcd
   have hparts := fun (pre : List (BitVec 8)) (op : BitVec 32) =>
-    emitModSib_index_parts c pre (segmentPrefix seg).length op 0#32 ((reg + (vvvvv <<< 7)) &&& 7#32) rb rx (rmInfoIdx a32) (memBaseIndex size rb rx sh d seg a32) imm n
+    emitModSib_index_parts c pre (segmentPrefix seg).length op (zOpt z) ((reg + (vvvvv <<< 7)) &&& 7#32) rb rx (rmInfoIdx a32) (memBaseIndex size rb rx sh d seg a32) imm n
       (by cases a32 <;> decide) (by cases a32 <;> decide) (by cases a32 <;> decide) hx4
-  rw [emitVexEvexM_index_eq c opcode reg vvvvv rb rx size sh d imm n seg a32 hm hpe hk hvs]
-  have hx31 : xMbx opcode reg vvvvv rb rx &&& 0x80180000#32 = 0#32 := by simp only [xMbx, extractLLMMMMM, kLL_Mask, kMM_Mask, oEvex]; bv_decide
-  cases hvf : c.vexFlag
-  · have hx20 : (xMbx opcode reg vvvvv rb rx ||| 0x80000000#32) &&& 0x00180000#32 = 0#32 := by bv_decide
-    have hne : (xMbx opcode reg vvvvv rb rx ||| 0x80000000#32) &&& 0x80D78110#32 ≠ 0#32 := by bv_decide
-    simp only [Bool.false_eq_true, ↓reduceIte, true_or]
-    rw [vexEvexMPrefix_nobcstX c _ opcode _ hx20, if_pos hne, evexWord_forced, xMbx_eq_xR opcode reg vvvvv rb rx hb hx]
-    simp only []
-    rw [hparts, hoff, hshift, hcd]
-    simp [memDs]
-  · have hx20 : xMbx opcode reg vvvvv rb rx &&& 0x00180000#32 = 0#32 := by bv_decide
-    have hc : (xMbx opcode reg vvvvv rb rx &&& 0x80D78110#32 ≠ 0#32) ↔ (xMbx opcode reg vvvvv rb rx &&& 0x00D78110#32 ≠ 0#32) := by
-      constructor <;> intro h <;> bv_decide
-    simp only [↓reduceIte, Bool.true_eq_false, false_or]
-    rw [vexEvexMPrefix_nobcstX c _ opcode _ hx20]
-    by_cases hev : xMbx opcode reg vvvvv rb rx &&& 0x00D78110#32 ≠ 0#32
-    · rw [if_pos (hc.mpr hev)]
-      rw [xMbx_eq_xR opcode reg vvvvv rb rx hb hx] at hev ⊢
-      rw [if_pos hev]
-      simp only []
-      rw [hparts, hoff, hshift, hcd]
-      simp [memDs]
-    · rw [if_neg (fun h => hev (hc.mp h))]
-      rw [xMbx_eq_xR opcode reg vvvvv rb rx hb hx] at hev ⊢
-      rw [if_neg hev]
-      by_cases hv3 : vexPrep (xR opcode 0#32 reg vvvvv (xbOf rb rx) 0#32) opcode 0#32 &&& 0x8000807E#32 ≠ 0#32
-      · simp only [if_pos hv3]
-        rw [hparts, hoff, hshift, cdShift_cleared, vex3Word_masked]
-        simp [memDs]
-      · simp only [if_neg hv3]
-        rw [hparts, hoff, hshift, cdShift_cleared]
-        simp [memDs]
+  rw [emitVexEvexM_index_eq c opcode reg vvvvv rb rx aaa z size sh d imm n seg a32 hm hpe hk hvs, xMbx_eq_xR opcode reg vvvvv rb rx aaa z hb hx,
+    vexEvexMPrefix_decided c opcode reg vvvvv (xbOf rb rx) aaa z _ hr hv hxb ha hxop]
+  simp only []
+  split
+  · rw [hparts, hoff, hshift]; simp [memDs]
+  · split
+    · rw [hparts, hoff, hshift, cdShift_cleared]; simp [memDs]
+    · rw [hparts, hoff, hshift, cdShift_cleared]; simp [memDs]
 
 /-- the address form `seg:[base + index * 2^sh + disp]` with 64-bit (or - `a32` - 32-bit, 67 prefix) registers: ANY segment override, ALL bases 0..15, ALL indexes 0..15 except rSP, ALL scales, ALL displacements -/
-theorem addrForm_index (c : Model.X86.Ctx) (ctx : Spec.X86.Ctx) (rb rx : BitVec 32) (size sh : Nat) (d : BitVec 64) (seg : Nat) (a32 : Bool)
-    (hm : c.mode64 = true) (hpe : c.preferEvex = false) (hk : c.extraId = 0#32) (hvs : c.vsib = false)
+theorem addrForm_index (c : Model.X86.Ctx) (ctx : Spec.X86.Ctx) (rb rx aaa : BitVec 32) (size sh : Nat) (d : BitVec 64) (seg : Nat) (a32 : Bool)
+    (hm : c.mode64 = true) (hpe : c.preferEvex = false) (hk : c.extraId = aaa) (ha : aaa < 8#32) (hvs : c.vsib = false)
     (hm64 : ctx.mode64 = true) (hb : rb < 16#32) (hx : rx < 16#32) (hx4 : rx ≠ 4#32) (hsh : sh < 4) :
-    AddrForm c ctx (memBaseIndex size rb rx sh d seg a32) (memOpBaseIndex size rb rx sh d seg a32) (segmentPrefix seg ++ aoBytes a32) (xbOf rb rx)
+    AddrForm c ctx (memBaseIndex size rb rx sh d seg a32) (memOpBaseIndex size rb rx sh d seg a32) (segmentPrefix seg ++ aoBytes a32) (xbOf rb rx) aaa
       (fun o7 s => idxMb o7 (memVariant (rb &&& 7#32) (d.truncate 32) s))
       (fun _ _ => some (idxSib (BitVec.ofNat 32 sh) (rx &&& 7#32) (rb &&& 7#32)))
       (fun _ s => memDs rb (d.truncate 32) s) := by
   have hr7 : rb &&& 7#32 < 8#32 := by bv_decide
   have hx7 : rx &&& 7#32 < 8#32 := by bv_decide
   obtain ⟨hpl, hpc, h67⟩ := segPfx_ok seg a32 (memOpBaseIndex size rb rx sh d seg a32) rfl (by cases a32 <;> rfl)
-  refine ⟨by simp only [xbOf]; bv_decide, hpl, hpc, by cases a32 <;> rfl, rfl, ?_, ?_, ?_⟩
+  refine ⟨by simp only [xbOf]; bv_decide, ha, hpl, hpc, by cases a32 <;> rfl, rfl, ?_, ?_, ?_⟩
   · intro o7 s ho
     have hvlt := memVariant_lt (rb &&& 7#32) (d.truncate 32) s
     have hv5 : memVariant (rb &&& 7#32) (d.truncate 32) s = 0 → rb &&& 7#32 ≠ 5#32 := by
@@ -299,8 +238,8 @@ theorem addrForm_index (c : Model.X86.Ctx) (ctx : Spec.X86.Ctx) (rb rx : BitVec 
     have h4 : (xbOf rb rx).getLsbD 4 = rx.getLsbD 3 := by simp only [xbOf]; bv_decide
     rw [h3, h4] at F
     exact idxParts_checkMem ctx rule p o7 rb rx s size sh d hm64 ho hb hx hx4 hsh hs6 seg a32 _ h67 F hN
-  · intro opcode reg vvvvv imm n hr hv hxop
-    exact emitVexEvexM_index_bytes c opcode reg vvvvv rb rx size sh d imm n seg a32 hm hpe hk hvs hr hv hb hx hx4 hxop
+  · intro opcode reg vvvvv z imm n hr hv hxop
+    exact emitVexEvexM_index_bytes c opcode reg vvvvv rb rx aaa z size sh d imm n seg a32 hm hpe hk hvs hr hv hb hx hx4 ha hxop
 
 /-! ### `[rip + disp32]` -/
 
@@ -329,28 +268,38 @@ theorem emitModSib_rip_parts (c : Model.X86.Ctx) (pre : List (BitVec 8)) (ao : N
   unfold emitModSib
   simp [kX86MemInfo_Index, kX86MemInfo_67H_X86, kX86MemInfo_BaseGp, kX86MemInfo_BaseLabel, kX86MemInfo_BaseRip, hm, ripMb]
 
-theorem emitVexEvexM_rip_eq (c : Model.X86.Ctx) (opcode reg vvvvv : BitVec 32) (size : Nat) (d imm : BitVec 64) (n : Nat) (seg : Nat)
-    (hm : c.mode64 = true) (hpe : c.preferEvex = false) (hk : c.extraId = 0#32) (hvs : c.vsib = false) :
-    emitVexEvexM c opcode 0#32 (reg + (vvvvv <<< 7)) (memRip size d seg) imm n =
-      (match vexEvexMPrefix c (if c.vexFlag then xMb opcode reg vvvvv 0#32 else xMb opcode reg vvvvv 0#32 ||| 0x80000000#32) opcode 0#32 (memRip size d seg) with
+theorem emitVexEvexM_rip_eq (c : Model.X86.Ctx) (opcode reg vvvvv aaa : BitVec 32) (z : Bool) (size : Nat) (d imm : BitVec 64) (n : Nat) (seg : Nat)
+    (hm : c.mode64 = true) (hpe : c.preferEvex = false) (hk : c.extraId = aaa) (hvs : c.vsib = false) :
+    emitVexEvexM c opcode (zOpt z) (reg + (vvvvv <<< 7)) (memRip size d seg) imm n =
+      (match vexEvexMPrefix c ((if c.vexFlag then xMbK opcode reg vvvvv 0#32 aaa z else xMbK opcode reg vvvvv 0#32 aaa z ||| 0x80000000#32) ||| zOpt z) opcode (zOpt z)
+          (memRip size d seg) with
        | .error e => .error e
-       | .ok v => emitModSib c (segmentPrefix seg ++ aoBytes false ++ v.1) (segmentPrefix seg).length v.2 0#32 ((reg + (vvvvv <<< 7)) &&& 7#32) 0#32 0#32 0x2C#32 (memRip size d seg) imm n false) := by
+       | .ok v => emitModSib c (segmentPrefix seg ++ aoBytes false ++ v.1) (segmentPrefix seg).length v.2 (zOpt z) ((reg + (vvvvv <<< 7)) &&& 7#32) 0#32 0#32 0x2C#32
+                    (memRip size d seg) imm n false) := by
   unfold emitVexEvexM
-  simp only [memRip, xMb, aoBytes, Bool.false_eq_true, ↓reduceIte]
-  simp only [rtLabel, hk, hpe, hvs, memInfo_rip, Model.X86.Ctx.aoMask, hm, oZMask, oER, oSAE, oVex, oVex3]
-  simp only [BitVec.ofNat_toNat, BitVec.setWidth_eq, BitVec.zero_and, BitVec.zero_or, BitVec.or_zero, bne_self_eq_false, Bool.false_eq_true, ↓reduceIte,
-    Bool.false_and, gt_iff_lt, Nat.lt_irrefl, Nat.not_lt_zero, BitVec.zero_shiftLeft, BitVec.and_zero, bind, Except.bind, Bool.not_false,
-    show (1 < 31) = True from by decide, show (0x2C#32 &&& 0x80#32 != 0#32) = false from by decide, List.nil_append, List.length_nil, List.append_nil,
-    show ((0:Nat) != 0) = false from by decide, BitVec.ofNat_eq_ofNat]
-  generalize vexEvexMPrefix c _ opcode 0#32 _ = r
-  cases r <;> rfl
+  cases z
+  all_goals
+    dsimp only [memRip, xMbK, aoBytes, zOpt]
+    simp only [hk, hpe, hvs, memInfo_rip, Model.X86.Ctx.aoMask, hm]
+    simp only [rtLabel, oZMask, oER, oSAE, oVex, oVex3]
+    simp only [BitVec.ofNat_toNat, BitVec.setWidth_eq, BitVec.zero_and, BitVec.zero_or, BitVec.or_zero, bne_self_eq_false, Bool.false_eq_true, ↓reduceIte,
+      Bool.false_and, gt_iff_lt, Nat.lt_irrefl, Nat.not_lt_zero, BitVec.zero_shiftLeft, BitVec.and_zero, bind, Except.bind, Bool.not_false,
+      show (1 < 31) = True from by decide, show (0x2C#32 &&& 0x80#32 != 0#32) = false from by decide, List.nil_append, List.length_nil, List.append_nil,
+      show ((0:Nat) != 0) = false from by decide, BitVec.ofNat_eq_ofNat,
+      show (0x800000#32 &&& (0x800000#32 ||| 0x40000#32 ||| 0x80000#32) != 0#32) = true from by decide,
+      show (0x800000#32 &&& (0x40000#32 ||| 0x80000#32) != 0#32) = false from by decide,
+      show (0x800000#32 &&& 0x800000#32) = 0x800000#32 from by decide,
+      show (0x800000#32 &&& (0x800#32 ||| 0x400#32)) = 0#32 from by decide]
+    generalize vexEvexMPrefix c _ opcode _ _ = r
+    cases r <;> rfl
 
-/-- the address form `seg:[rip + disp32]`: ANY segment override, ALL displacements (the encoder uses the low 32 bits) -/
-theorem addrForm_rip (c : Model.X86.Ctx) (ctx : Spec.X86.Ctx) (size : Nat) (d : BitVec 64) (seg : Nat)
-    (hm : c.mode64 = true) (hpe : c.preferEvex = false) (hk : c.extraId = 0#32) (hvs : c.vsib = false) (hm64 : ctx.mode64 = true) :
-    AddrForm c ctx (memRip size d seg) (memOpRip size d seg) (segmentPrefix seg ++ aoBytes false) 0#32 (fun o7 _ => ripMb o7) (fun _ _ => none) (fun _ _ => le32 (d.truncate 32)) := by
+/-- the address form `seg:[rip + disp32]`: ANY segment override, ANY mask register, ALL displacements (the encoder uses the low 32 bits) -/
+theorem addrForm_rip (c : Model.X86.Ctx) (ctx : Spec.X86.Ctx) (aaa : BitVec 32) (size : Nat) (d : BitVec 64) (seg : Nat)
+    (hm : c.mode64 = true) (hpe : c.preferEvex = false) (hk : c.extraId = aaa) (ha : aaa < 8#32) (hvs : c.vsib = false) (hm64 : ctx.mode64 = true) :
+    AddrForm c ctx (memRip size d seg) (memOpRip size d seg) (segmentPrefix seg ++ aoBytes false) 0#32 aaa
+      (fun o7 _ => ripMb o7) (fun _ _ => none) (fun _ _ => le32 (d.truncate 32)) := by
   obtain ⟨hpl, hpc, h67⟩ := segPfx_ok seg false (memOpRip size d seg) rfl (by simp [wantedAddrSize, memOpRip])
-  refine ⟨by decide, hpl, hpc, rfl, rfl, ?_, ?_, ?_⟩
+  refine ⟨by decide, ha, hpl, hpc, rfl, rfl, ?_, ?_, ?_⟩
   · intro o7 s ho
     obtain ⟨f1, f2, f3⟩ := ripMb_factsBV o7 ho
     refine ⟨by rw [f1]; omega, by simp [f2], ?_, f3⟩
@@ -361,42 +310,17 @@ theorem addrForm_rip (c : Model.X86.Ctx) (ctx : Spec.X86.Ctx) (size : Nat) (d : 
     refine checkMem_rip ctx rule p (memOpRip size d seg) _ hm64 (by rw [hpp]; exact h67) hpa hpm f1 f2 rfl rfl hps (by rw [hpd]; rfl) ?_
     rw [hpv, leNat_le32]
     simp [memOpRip, BitVec.toNat_setWidth]
-  · intro opcode reg vvvvv imm n hr hv hxop
+  · intro opcode reg vvvvv z imm n hr hv hxop
     have hoff : (memRip size d seg).offLo32 = d.truncate 32 := rfl
-    have h0 : (0#32 : BitVec 32) < 16#32 := by decide
-    have hcd := evexCdOpcode_eq32 opcode reg vvvvv 0#32 hr hv (by decide) hxop
-    simp only [evexCdOpcode] at hcd
-    rw [emitVexEvexM_rip_eq c opcode reg vvvvv size d imm n seg hm hpe hk hvs]
-    have hx31 : xMb opcode reg vvvvv 0#32 &&& 0x80180000#32 = 0#32 := by simp only [xMb, extractLLMMMMM, kLL_Mask, kMM_Mask, oEvex]; bv_decide
-    cases hvf : c.vexFlag
-    · have hx20 : (xMb opcode reg vvvvv 0#32 ||| 0x80000000#32) &&& 0x00180000#32 = 0#32 := by bv_decide
-      have hne : (xMb opcode reg vvvvv 0#32 ||| 0x80000000#32) &&& 0x80D78110#32 ≠ 0#32 := by bv_decide
-      simp only [Bool.false_eq_true, ↓reduceIte, true_or]
-      rw [vexEvexMPrefix_nobcstX c _ opcode _ hx20, if_pos hne, evexWord_forced, xMb_eq_xR opcode reg vvvvv 0#32 h0]
-      simp only []
-      rw [emitModSib_rip_parts c _ _ _ 0#32 _ 0#32 0#32 _ imm n hm, hoff]
-      simp
-    · have hx20 : xMb opcode reg vvvvv 0#32 &&& 0x00180000#32 = 0#32 := by bv_decide
-      have hc : (xMb opcode reg vvvvv 0#32 &&& 0x80D78110#32 ≠ 0#32) ↔ (xMb opcode reg vvvvv 0#32 &&& 0x00D78110#32 ≠ 0#32) := by
-        constructor <;> intro h <;> bv_decide
-      simp only [↓reduceIte, Bool.true_eq_false, false_or]
-      rw [vexEvexMPrefix_nobcstX c _ opcode _ hx20]
-      by_cases hev : xMb opcode reg vvvvv 0#32 &&& 0x00D78110#32 ≠ 0#32
-      · rw [if_pos (hc.mpr hev)]
-        rw [xMb_eq_xR opcode reg vvvvv 0#32 h0] at hev ⊢
-        rw [if_pos hev]
-        simp only []
-        rw [emitModSib_rip_parts c _ _ _ 0#32 _ 0#32 0#32 _ imm n hm, hoff]
-        simp
-      · rw [if_neg (fun h => hev (hc.mp h))]
-        rw [xMb_eq_xR opcode reg vvvvv 0#32 h0] at hev ⊢
-        rw [if_neg hev]
-        by_cases hv3 : vexPrep (xR opcode 0#32 reg vvvvv 0#32 0#32) opcode 0#32 &&& 0x8000807E#32 ≠ 0#32
-        · simp only [if_pos hv3]
-          rw [emitModSib_rip_parts c _ _ _ 0#32 _ 0#32 0#32 _ imm n hm, hoff, vex3Word_masked]
-          simp
-        · simp only [if_neg hv3]
-          rw [emitModSib_rip_parts c _ _ _ 0#32 _ 0#32 0#32 _ imm n hm, hoff]
-          simp
+    have hxe : xMbK opcode reg vvvvv 0#32 aaa z = xR opcode 0#32 reg vvvvv 0#32 aaa := by
+      cases z <;> simp only [xMbK, xR, zOpt, oZMask, extractLLMMMMM, kLL_Mask, kMM_Mask, oEvex, Bool.false_eq_true, ↓reduceIte] <;> bv_decide
+    rw [emitVexEvexM_rip_eq c opcode reg vvvvv aaa z size d imm n seg hm hpe hk hvs, hxe,
+      vexEvexMPrefix_decided c opcode reg vvvvv 0#32 aaa z _ hr hv (by decide) ha hxop]
+    simp only []
+    split
+    · rw [emitModSib_rip_parts c _ _ _ _ _ 0#32 0#32 _ imm n hm, hoff]; simp
+    · split
+      · rw [emitModSib_rip_parts c _ _ _ _ _ 0#32 0#32 _ imm n hm, hoff]; simp
+      · rw [emitModSib_rip_parts c _ _ _ _ _ 0#32 0#32 _ imm n hm, hoff]; simp
 
 end AsmjitVerif.Props.C01
